@@ -65,9 +65,13 @@ SU_vector implementation
 */
 #if SQUIDS_USE_STORAGE_CACHE
 #ifdef SQUIDS_THREAD_LOCAL
+SQUIDS_THREAD_LOCAL
+#endif
+bool SU_vector::storage_cache_usable=false;
+#ifdef SQUIDS_THREAD_LOCAL
 SQUIDS_THREAD_LOCAL //one cache per thread if supported
 #endif
-detail::cache<SU_vector::mem_cache_entry,32> SU_vector::storage_cache[SQUIDS_MAX_HILBERT_DIM+1];
+SU_vector::storage_cache_set SU_vector::storage_cache;
 #endif
 /*
 -----------------------------------------------------------------------
